@@ -187,7 +187,7 @@ def slice_(cx):
     ok = len(lim) == 1 and all(g.after_edge_must_pass(lambda lits: any(l[0] == "is" and l[2] is True and l[1][0] == "bin" and l[1][1] == "Lt" and is_f(l[1][2], "Unstable.offset") and l[1][3][0] == "param" for l in lits), lambda b: b == lim[0].block)[0] for _ in [0])
     cx.check(ok, "limit", "every result that includes unstable entries goes through limit_size")
     # bounds check first
-    chk = [c for c in cx.prog.all_calls if c.fn is f and c.data["callee"].endswith("must_check_outofbounds")]
+    chk = [c for c in cx.prog.all_calls if c.fn is f and c.data["callee"] == cx.sfx("RaftLog::must_check_outofbounds")]
     ok = len(chk) == 1 and all(g.dominated_by_block(c.at, lambda b: b == chk[0].block) for c in se + ext)
     cx.check(ok, "bounds-first", "slice validates [low, high) against the log before reading anything")
 
